@@ -108,6 +108,9 @@ func clonePlan(p *Plan) *Plan {
 	b, _ := json.Marshal(p)
 	var q Plan
 	json.Unmarshal(b, &q)
+	if q.Checks == nil {
+		q.Checks = map[string]bool{}
+	}
 	return &q
 }
 
